@@ -14,7 +14,7 @@ import (
 
 // C07Params: scripts of task API calls issued by 1-2 submitter threads on tasks 1..N.
 // Op syntax: "<op><task>", op in q (Queue), p (QueuePrioritized), a (StartASAP),
-// s5 (Schedule now+5s), s100 (Schedule now+100s), sz (Schedule zero), m (MaxDelay(0)), c (Cancel).
+// s5 (Schedule now+5s), s100 (Schedule now+100s), sz (Schedule zero), m (MaxDelay(0)), md (MaxDelay(10s)), c (Cancel).
 type C07Params struct {
 	Scripts [][]string
 	Tasks   int
@@ -47,10 +47,11 @@ type c07ev struct {
 }
 
 type c07state struct {
-	log     []c07ev
-	tasks   []*Task
-	running []int
-	begins  []int
+	log      []c07ev
+	tasks    []*Task
+	running  []int
+	begins   []int
+	maxDelay []time.Duration // per task: the maximum delay in force (0 = none)
 }
 
 var c07 *c07state
@@ -74,7 +75,10 @@ func VerifC07(p C07Params) *vsched.Scenario {
 	sc := &vsched.Scenario{Name: p.Name(), MaxSteps: 150000}
 	sc.Reset = func() {
 		VerifResetWorld()
-		c07 = &c07state{tasks: make([]*Task, p.Tasks+1), running: make([]int, p.Tasks+1), begins: make([]int, p.Tasks+1)}
+		c07 = &c07state{tasks: make([]*Task, p.Tasks+1), running: make([]int, p.Tasks+1), begins: make([]int, p.Tasks+1), maxDelay: make([]time.Duration, p.Tasks+1)}
+		for i := range c07.maxDelay {
+			c07.maxDelay[i] = defaultMaxDelay
+		}
 	}
 	sc.Body = func() {
 		s := c07
@@ -189,6 +193,10 @@ func VerifC07(p C07Params) *vsched.Scenario {
 						t.Schedule(time.Time{})
 					case "m":
 						t.MaxDelay(0)
+						s.maxDelay[ti] = 0
+					case "md":
+						t.MaxDelay(10 * time.Second)
+						s.maxDelay[ti] = 10 * time.Second
 					case "c":
 						t.Cancel()
 						r.exec = t.executing // read right after the call returned (atomic in the schedule)
@@ -223,6 +231,9 @@ func VerifC07(p C07Params) *vsched.Scenario {
 		}
 		if r.Deadlock {
 			out = append(out, vsched.Issue{Clause: "no-deadlock", Disc: "deadlock", Detail: "blocked: " + strings.Join(r.Blocked, " | ")})
+		}
+		if r.StepLimit {
+			out = append(out, vsched.Issue{Clause: "submitted-task-is-executed", Disc: "never-finishes", Detail: fmt.Sprintf("the execution did not finish within %d scheduler steps (a complete execution takes a few thousand): a handler keeps running without ever blocking or letting time pass", sc.MaxSteps)})
 		}
 		return out
 	}
@@ -384,10 +395,11 @@ func c07judge(p C07Params, s *c07state, submitEnd int) {
 						}
 					}
 				}
+				md := s.maxDelay[e.task]
 				for _, r := range running {
-					if e.now-r.begin < maxExecutionWait && (sub < 0 || e.now < sub+defaultMaxDelay) {
+					if e.now-r.begin < maxExecutionWait && (sub < 0 || md == 0 || e.now < sub+md) {
 						verifFail("queue-order", "concurrent-start", "task %d began at %s while task %d (begun at %s) was still running, before the execution-wait limit (%s) and before its own maximum delay (%s after %s) had passed\nlog: %s",
-							e.task, e.now, r.task, r.begin, maxExecutionWait, defaultMaxDelay, sub, c07fmt(s.log))
+							e.task, e.now, r.task, r.begin, maxExecutionWait, md, sub, c07fmt(s.log))
 					}
 				}
 				running = append(running, run{e.task, e.now})
